@@ -134,6 +134,7 @@ func superviseChild(run *lib.Run, self, dir string, f *family, c, n int) {
 		}
 		inflight, lastInputs := inFlight(string(inputs))
 		if timedOut {
+			lib.WriteObservation(prop, fmt.Sprintf("watchdog-%s-child%d-scenario%d-seed%d", f.name, c, inflight, lib.Seed()), map[string]interface{}{"goroutine_dump": dumpFrom(output, 80000), "last_logged_inputs": lastInputs})
 			run.Inconclusive(fmt.Sprintf("%s child %d hit the %v watchdog in scenario %d: %s", f.name, c, wd, inflight, tailLines(output, 6)))
 			if inflight < 0 {
 				return
@@ -154,6 +155,17 @@ func superviseChild(run *lib.Run, self, dir string, f *family, c, n int) {
 		}
 		from = inflight + f.children
 	}
+}
+
+// dumpFrom returns up to n bytes of a child's output starting at its SIGQUIT goroutine dump.
+func dumpFrom(s string, n int) string {
+	if i := strings.Index(s, "SIGQUIT"); i >= 0 {
+		s = s[i:]
+	}
+	if len(s) > n {
+		return s[:n]
+	}
+	return s
 }
 
 // inFlight parses the input log: the scenario that was begun and not ended, and
@@ -304,7 +316,8 @@ func reactorWorker(args []string) {
 		stride = 1
 	}
 	run := lib.NewChildRun(prop)
-	base := lib.Scratch(prop + "-rw")
+	base := out + ".scratch" // inside the parent's scratch directory: removed there even if this process dies
+	os.MkdirAll(base, 0755)
 	defer os.RemoveAll(base)
 	inlogPath := out + ".inputs"
 	inlog, err := os.Create(inlogPath)
@@ -401,11 +414,20 @@ func newRNode(cr *childRun, prefix string, cfg *viper.Viper, listenAddr string) 
 	return n
 }
 
+// stop tears the node down. Teardown is not under test: Switch.Stop can block (RepeatTimer.Stop
+// waits for a fire routine that waits for a reader that is gone), so it gets a bounded wait.
 func (n *rnode) stop() {
-	func() {
+	done := make(chan struct{})
+	go func() {
+		defer close(done)
 		defer func() { recover() }()
 		n.sw.Stop()
 	}()
+	select {
+	case <-done:
+	case <-time.After(5 * time.Second):
+		n.cr.run.Count(n.pfx+"_teardown_abandoned", 1)
+	}
 }
 
 // inbound does what Switch.listenerRoutine does with an accepted connection. That
